@@ -63,6 +63,20 @@ def _run(ctx, ncases, rec_kernels):
       kind = int(rng.integers(0, 3))
       if kind == 0:
         mask[:] = True
+      # every user-input component of every world gets non-default, per-world different content before the reset
+      # (otherwise "unselected worlds are untouched" and "selected worlds are cleared" cannot be observed for it)
+      st0, sig0 = get_full_state(mjw, m, d, mjm)
+      adr0 = 0
+      for k, nm in enumerate(["time", "qpos", "qvel", "act", "history", "warmstart", "ctrl", "qfrc_applied", "xfrc_applied", "eq_active", "mocap_pos", "mocap_quat", "userdata"]):
+        n0 = mujoco.mj_stateSize(mjm, 1 << k)
+        if nm in ("qfrc_applied", "xfrc_applied", "mocap_pos", "userdata"):
+          st0[:, adr0:adr0 + n0] = rng.normal(size=(nworld, n0)).astype(np.float32)
+        elif nm == "eq_active":
+          st0[:, adr0:adr0 + n0] = rng.integers(0, 2, size=(nworld, n0))
+        elif nm == "mocap_quat":
+          q = rng.normal(size=(nworld, n0)); st0[:, adr0:adr0 + n0] = (q / np.linalg.norm(q, axis=1, keepdims=True)).astype(np.float32)
+        adr0 += n0
+      mjw.set_state(m, d, wp.array(st0.astype(np.float32), dtype=float), sig0)
       before, sig = get_full_state(mjw, m, d, mjm)
       con_before = [world_contacts(d, w) for w in range(nworld)]
       mjw.reset_data(m, d, wp.array(mask, dtype=bool) if kind != 0 or rng.random() < 0.5 else None)
@@ -110,7 +124,7 @@ def _run(ctx, ncases, rec_kernels):
 
 
 RULE = ("model with na>nu (DC motor), delayed actuator (history), mocap, weld equality, userdata, contacts; 1-3 worlds, per-world controls, 2-7 steps, then reset_data with a random mask "
-        "(full / partial / None); compare with a fresh make_data through get_state(INTEGRATION) + per-world contact lists; distinct = distinct (delay, nworld, mask)")
+        "(full / partial / None) after every user-input component (qfrc_applied, xfrc_applied, eq_active, mocap, userdata) of every world was set to random content; compare with a fresh make_data through get_state(INTEGRATION) + per-world contact lists; distinct = distinct (delay, nworld, mask)")
 
 
 def correspondence(ctx):
